@@ -14,23 +14,28 @@ structure St where
   held : Option Nat
   opened : List Nat          -- not yet closed
   next : Nat                 -- connections created so far
+  isOpen : Bool              -- the socket's `is_open` flag
 
 inductive Step : St → St → Prop
   /-- `_connect`: `open_connection` returned while nothing is held and the socket is open: adopted. -/
-  | adopt (s : St) (h : s.held = none) :
-      Step s ⟨some s.next, s.next :: s.opened, s.next + 1⟩
+  | adopt (s : St) (h : s.held = none) (ho : s.isOpen = true) :
+      Step s ⟨some s.next, s.next :: s.opened, s.next + 1, s.isOpen⟩
   /-- `_connect`: `open_connection` returned after close() or after another connect won: the new connection
   is closed again in the same atomic segment and not adopted. -/
-  | reject (s : St) : Step s ⟨s.held, s.opened, s.next + 1⟩
+  | reject (s : St) : Step s ⟨s.held, s.opened, s.next + 1, s.isOpen⟩
   /-- `_disconnect` (also through reset_connection / close): the held connection is closed before anything
   else can run; afterwards nothing is held. -/
   | disconnect (s : St) (c : Nat) (h : s.held = some c) :
-      Step s ⟨none, s.opened.erase c, s.next⟩
+      Step s ⟨none, s.opened.erase c, s.next, s.isOpen⟩
   /-- `_disconnect` on a socket that holds nothing. -/
   | noop (s : St) : Step s s
+  /-- `close()`, first atomic segment: the socket is marked not open *before* close first suspends. -/
+  | shut (s : St) : Step s ⟨s.held, s.opened, s.next, false⟩
+  /-- `open_socket()`. -/
+  | reopen (s : St) : Step s ⟨s.held, s.opened, s.next, true⟩
 
 inductive Reach : St → Prop
-  | init : Reach ⟨none, [], 0⟩
+  | init : Reach ⟨none, [], 0, false⟩
   | step {s t : St} (h : Reach s) (st : Step s t) : Reach t
 
 def Inv (s : St) : Prop :=
@@ -42,7 +47,7 @@ theorem inv_reach {s : St} (h : Reach s) : Inv s := by
   | step _ st ih =>
     obtain ⟨h1, h2⟩ := ih
     cases st with
-    | adopt hh =>
+    | adopt hh _ =>
       rw [hh] at h1
       refine ⟨by simp [h1], ?_⟩
       intro c hc
@@ -54,6 +59,8 @@ theorem inv_reach {s : St} (h : Reach s) : Inv s := by
       rw [hh] at h1
       exact ⟨by simp [h1], by intro d hd; simp [h1] at hd⟩
     | noop => exact ⟨h1, h2⟩
+    | shut => exact ⟨h1, h2⟩
+    | reopen => exact ⟨h1, h2⟩
 
 /-- **C07 (safety).**  At every instant at most one connection is open, and it is the one in use. -/
 theorem at_most_one_open {s : St} (h : Reach s) : s.opened.length ≤ 1 ∧ (∀ c ∈ s.opened, s.held = some c) := by
@@ -66,7 +73,50 @@ theorem at_most_one_open {s : St} (h : Reach s) : s.opened.length ≤ 1 ∧ (∀
 theorem abandoned_are_closed {s : St} (h : Reach s) (c : Nat) (hc : c ∈ s.opened) : s.held = some c :=
   (at_most_one_open h).2 c hc
 
+/-- Steps that can happen while nobody calls `open_socket()` again. -/
+inductive Quiet : St → St → Prop
+  | refl (s : St) : Quiet s s
+  | step {s t u : St} (h : Quiet s t) (st : Step t u) (nr : u.isOpen = t.isOpen ∨ u.isOpen = false) : Quiet s u
+
+/-- While the socket is marked not open, no connection is adopted: what is held can only be given up. -/
+theorem closed_adopts_nothing {s t : St} (q : Quiet s t) (hc : s.isOpen = false) :
+    t.isOpen = false ∧ (t.held = none ∨ t.held = s.held) := by
+  induction q with
+  | refl => exact ⟨hc, Or.inr rfl⟩
+  | step _ st nr ih =>
+    obtain ⟨io, hh⟩ := ih
+    cases st with
+    | adopt _ ho => rw [io] at ho; cases ho
+    | reject => exact ⟨io, hh⟩
+    | disconnect c _ => exact ⟨io, Or.inl rfl⟩
+    | noop => exact ⟨io, hh⟩
+    | shut => exact ⟨rfl, hh⟩
+    | reopen =>
+      cases nr with
+      | inl h => simp [io] at h
+      | inr h => simp at h
+
+/-- **C15 (safety).**  `close()` = mark not open, then `_disconnect`.  From the moment its `_disconnect` has run
+(nothing held, socket marked not open) and for as long as `open_socket()` is not called again - whatever connection
+attempts, resets and read-loop failures complete meanwhile - the socket holds no connection and no connection is
+open: every connection that was opened has been closed, and none is adopted after shutdown. -/
+theorem closed_is_final {s t : St} (hs : Reach s) (hc : s.isOpen = false) (hn : s.held = none) (q : Quiet s t) :
+    t.held = none ∧ t.opened = [] ∧ t.isOpen = false := by
+  have reach_t : Reach t := by
+    induction q with
+    | refl => exact hs
+    | step _ st _ ih => exact Reach.step ih st
+  obtain ⟨io, hh⟩ := closed_adopts_nothing q hc
+  have hnone : t.held = none := by
+    cases hh with
+    | inl h => exact h
+    | inr h => rw [h, hn]
+  obtain ⟨h1, _⟩ := inv_reach reach_t
+  rw [hnone] at h1
+  exact ⟨hnone, h1, io⟩
+
 end Conn
 
 #print axioms Conn.at_most_one_open
 #print axioms Conn.abandoned_are_closed
+#print axioms Conn.closed_is_final
